@@ -376,10 +376,19 @@ func execAffinity(t *testing.T, p *Plan) *Result {
 			}
 		}
 	}
+	if p.Prop == "C02" {
+		// borrowed by C02: "the response to a request the proxy relayed returns to the hop the request came from"
+		w.Stats["judged:C02"] += w.Stats["judged:C12"]
+		for _, v := range append([]Violation(nil), w.Viol...) {
+			if v.Prop == "C12" && v.Rule == "final-answer-not-relayed" {
+				w.Viol = append(w.Viol, Violation{Prop: "C02", Rule: "answer-not-relayed-exactly-once", Msg: v.Msg, Sig: "affinityWorld=true;ingress=tcp;crossListener=false;n=0", Detail: v.Detail})
+			}
+		}
+	}
 	finish(w, p, r)
 	r.Judged = w.Stats["judged:C12"]
-	if p.Prop == "C07" {
-		r.Judged = w.Stats["judged:C07"]
+	if p.Prop == "C07" || p.Prop == "C02" {
+		r.Judged = w.Stats["judged:"+p.Prop]
 	}
 	conns := map[string]int{}
 	for _, op := range p.Ops {
